@@ -575,3 +575,7 @@ package motion
 //@   ensures forall i int :: 0 <= i && i < result.flooredFrames.size ==> fresh(result.flooredFrames.frames[i])
 //@   ensures forall i int :: 0 <= i && i < 2 ==> fresh(result.diffFrames.frames[i])
 //@   ensures fresh(result.background) && fresh(arr(result.flooredFrames.frames)) && fresh(arr(result.flooredFrames.orderedFrames)) && fresh(arr(result.diffFrames.frames)) && fresh(arr(result.diffFrames.orderedFrames))
+
+// C08, cold pixels: with a fixed threshold a pixel enters every diff only through
+// cl(v, T), so two values at or below T are indistinguishable.
+//@ lemma [C08] coldClamp := forall v int, w int, t int, b int :: v <= t && w <= t ==> cl(v, t) == cl(w, t) && dabs(cl(v, t), cl(b, t)) == dabs(cl(w, t), cl(b, t)) && dabs(cl(b, t), cl(v, t)) == dabs(cl(b, t), cl(w, t)) && dwarm(cl(v, t), cl(b, t)) == dwarm(cl(w, t), cl(b, t)) && dwarm(cl(b, t), cl(v, t)) == dwarm(cl(b, t), cl(w, t))
